@@ -1079,3 +1079,336 @@ def enum_member_agreement(ctx, rule, classes, floor=0):
             ch._parent = x
     cb, cn = scan([x for x in ast.walk(ct) if isinstance(x, FUNC)])
     R.check([(a, e) for a, e, *_ in cb] == [('todo', 'Ag')] and tot >= floor, rule, f'{", ".join(classes)} | enum-keyed containers', f'{tot} containers tested with members of the enum they are filled with (positive control matched)', f'control {[(a, e) for a, e, *_ in cb]}')
+
+
+# ---------------------------------------------------------------------------------------------------------------------
+IDENT_ATTRS = {'op_code', 'event_code', 'subevent_code', 'opcode', 'signal_identifier', 'code', 'pdu_id', 'command_code', 'name', 'hci_packet_type'}
+
+
+def _class_table(p, modules):
+    """{class name: (module, ClassDef)} for top-level and nested classes of the modules."""
+    out = {}
+    for mn in modules:
+        m = p.modules.get(mn)
+        if m is None:
+            continue
+        for c in [x for x in ast.walk(m.tree) if isinstance(x, ast.ClassDef)]:
+            out.setdefault(c.name, (m, c))
+    return out
+
+
+def _registering(c):
+    """decorators that register the class in a family table: `Family.something` (an attribute of a class name)."""
+    return [d for d in c.decorator_list if isinstance(d if not isinstance(d, ast.Call) else d.func, ast.Attribute) and (dotted(d if not isinstance(d, ast.Call) else d.func) or '').split('.')[0][:1].isupper()]
+
+
+def registered_class_identity(ctx, rule, modules, floor=1):
+    """Registering decorators derive a packet class's code and name when the class does not have them yet (`hasattr`).  A
+    registered class that inherits from another registered class already *has* them -- its parent's -- so it is registered
+    under the parent's code, replaces the parent in the table and is serialised with the wrong code, unless it states its own."""
+    R, p = ctx.r, ctx.p
+    table = _class_table(p, modules)
+    n = 0
+    for name, (m, c) in sorted(table.items()):
+        if not _registering(c):
+            continue
+        n += 1
+        for b in c.bases:
+            bn = (dotted(b) or '').split('.')[-1]
+            if bn in table and _registering(table[bn][1]):
+                own = {t.id for s in c.body for t in ((s.targets if isinstance(s, ast.Assign) else [s.target] if isinstance(s, ast.AnnAssign) else [])) if isinstance(t, ast.Name)}
+                R.check(bool(own & IDENT_ATTRS), rule, f'{m.name}.{name} | derives from registered {bn}', f'states its own {sorted(own & IDENT_ATTRS)}',
+                        f'{name} is registered by a decorator and inherits from {bn}, which is registered too, without stating its own code: the decorator finds the inherited code / name (hasattr) and registers {name} in place of {bn}', f'{m.rel}:{c.lineno}')
+    R.check(n >= floor, rule, f'{", ".join(modules)} | registered classes', f'{n} classes registered by a decorator, none silently inheriting the identity of another registered class', f'only {n} registered classes found')
+
+
+def match_arm_shadowing(ctx, rule, modules, floor=0):
+    """`match x: case A(): ... case B(): ...` tests isinstance in order: when B is a subclass of A the B arm can never
+    run (a 'not accepted' packet made a subclass of 'accepted' is handled as accepted)."""
+    R, p = ctx.r, ctx.p
+    table = _class_table(p, [mn for mn in p.modules if mn.startswith('bumble.')])
+
+    def ancestors(name, seen=()):
+        out = set()
+        if name in table and name not in seen:
+            for b in table[name][1].bases:
+                bn = (dotted(b) or '').split('.')[-1]
+                out.add(bn)
+                out |= ancestors(bn, seen + (name,))
+        return out
+
+    def classes_of(pat):
+        if isinstance(pat, ast.MatchClass):
+            return [(dotted(pat.cls) or '').split('.')[-1]] if not pat.patterns and not pat.kwd_patterns else []
+        if isinstance(pat, ast.MatchOr):
+            return [c for q in pat.patterns for c in classes_of(q)]
+        if isinstance(pat, ast.MatchAs) and pat.pattern is not None:
+            return classes_of(pat.pattern)
+        return []
+    n = 0
+    for mn in modules:
+        m = p.modules.get(mn)
+        if m is None:
+            R.bad(rule, mn, 'anchor missing')
+            continue
+        for ms in [x for x in ast.walk(m.tree) if isinstance(x, ast.Match)]:
+            n += 1
+            seen = []
+            for case in ms.cases:
+                if case.guard is None:
+                    for cn in classes_of(case.pattern):
+                        hit = [a for a in seen if a in ancestors(cn)]
+                        if hit:
+                            R.bad(rule, f'{p.qual_of(ms)} | case {cn}()', f'`case {cn}()` comes after `case {hit[0]}()` and {cn} is a subclass of {hit[0]}: the earlier arm takes every {cn}, this arm never runs', f'{m.rel}:{case.pattern.lineno}')
+                    seen += classes_of(case.pattern)
+    R.check(n >= floor, rule, f'{", ".join(modules)} | match statements', f'{n} match statements, no class arm shadowed by an earlier arm for one of its base classes', f'{n} match statements found')
+
+
+def wire_fields_init(ctx, rule, modules, floor=1):
+    """A dataclass field that carries wire metadata is a constructor argument: parsers build the object with
+    `cls(**parsed_fields)` and serialisers read the instance `__dict__`; `init=False` breaks both."""
+    R, p = ctx.r, ctx.p
+    n = 0
+    for mn in modules:
+        m = p.modules.get(mn)
+        if m is None:
+            R.bad(rule, mn, 'anchor missing')
+            continue
+        for c in [x for x in ast.walk(m.tree) if isinstance(x, ast.Call) and (dotted(x.func) or '').split('.')[-1] == 'field' and kwarg(x, 'metadata') is not None]:
+            n += 1
+            i = kwarg(c, 'init')
+            if isinstance(i, ast.Constant) and i.value is False:
+                R.bad(rule, f'{p.qual_of(c)} | {norm(getattr(c, "_parent", c))[:60]}', 'a field with wire metadata is declared init=False: parsing raises TypeError (unexpected keyword) and serialising raises KeyError (not in the instance dict)', f'{m.rel}:{c.lineno}')
+    R.check(n >= floor, rule, f'{", ".join(modules)} | wire fields', f'{n} dataclass fields with wire metadata, all constructor arguments', f'only {n} found')
+
+
+def dead_default_check(ctx, rule, modules, floor=0):
+    """`x = self.table[key]` on a defaultdict never fails and never yields None: a following `if x is None` / `if not x`
+    "no such entry" test is dead, and the lookup has just created the entry (a waiter then waits on an event nobody sets)."""
+    R, p = ctx.r, ctx.p
+
+    def scan(tree):
+        dd = set()
+        for n in ast.walk(tree):
+            tgt = val = None
+            if isinstance(n, ast.Assign) and len(n.targets) == 1:
+                tgt, val = n.targets[0], n.value
+            elif isinstance(n, ast.AnnAssign):
+                tgt, val = n.target, n.value
+            if isinstance(val, ast.Call) and (dotted(val.func) or '').split('.')[-1] == 'defaultdict' and isinstance(tgt, ast.Attribute):
+                dd.add(tgt.attr)
+        out = []
+        for fn in [x for x in ast.walk(tree) if isinstance(x, FUNC)]:
+            for st in walk_local(fn):
+                if isinstance(st, ast.Assign) and len(st.targets) == 1 and isinstance(st.targets[0], ast.Name) and isinstance(st.value, ast.Subscript) and isinstance(st.value.value, ast.Attribute) and st.value.value.attr in dd:
+                    nm = st.targets[0].id
+                    for t in [x for x in walk_local(fn) if isinstance(x, (ast.If, ast.IfExp, ast.Assert)) and x.lineno >= st.lineno]:
+                        tt = norm(t.test)
+                        if tt in (f'{nm} is None', f'not {nm}', f'{nm} is not None', nm):
+                            out.append((fn, st, nm))
+                            break
+            for ne in [x for x in walk_local(fn) if isinstance(x, ast.NamedExpr) and isinstance(x.value, ast.Subscript) and isinstance(x.value.value, ast.Attribute) and x.value.value.attr in dd]:
+                par = getattr(ne, '_parent', None)
+                truth = (isinstance(par, ast.UnaryOp) and isinstance(par.op, ast.Not)) or (isinstance(par, (ast.If, ast.While, ast.IfExp)) and par.test is ne) or (isinstance(par, ast.Compare) and any(isinstance(c_, ast.Constant) and c_.value is None for c_ in par.comparators))
+                if truth:
+                    out.append((fn, ne, ne.target.id))
+        return out, len(dd)
+    tot = 0
+    for mn in modules:
+        m = p.modules.get(mn)
+        if m is None:
+            R.bad(rule, mn, 'anchor missing')
+            continue
+        bad, n = scan(m.tree)
+        tot += n
+        for fn, st, nm in bad:
+            R.bad(rule, f'{p.qual_of(fn)} | {norm(st)[:60]}', f'`{norm(st)[:60]}` indexes a defaultdict (the entry is created, the result is never None) and `{nm}` is then tested for absence: the test is dead, an unknown key silently gets a fresh entry', f'{m.rel}:{st.lineno}')
+    ct = ast.parse('import collections\nclass Q:\n    def __init__(self):\n        self.st = collections.defaultdict(S)\n    async def drain(self, h):\n        s = self.st[h]\n        if s is None:\n            raise ValueError\n        await s.ev.wait()\n    async def ok(self, h):\n        if not (s := self.st.get(h)):\n            raise ValueError\n')
+    cb, cn = scan(ct)
+    R.check([f.name for f, *_ in cb] == ['drain'] and tot >= floor, rule, f'{", ".join(modules)} | defaultdict lookups', f'{tot} defaultdict tables, no lookup by index followed by an absence test (positive control matched)', 'positive control not matched')
+
+
+def except_name_escape(ctx, rule, modules, floor=0):
+    """`except E as name:` unbinds `name` when the handler ends.  Reading it afterwards raises UnboundLocalError exactly on
+    the path where the exception happened (an earlier `name = None` does not help)."""
+    R, p = ctx.r, ctx.p
+
+    def scan(tree):
+        out, n = [], 0
+        for fn in [x for x in ast.walk(tree) if isinstance(x, FUNC)]:
+            for h in [x for x in walk_local(fn) if isinstance(x, ast.ExceptHandler) and x.name]:
+                n += 1
+                end = max(getattr(x, 'end_lineno', h.lineno) for x in ast.walk(h) if hasattr(x, 'end_lineno'))
+                for u in [x for x in walk_local(fn) if isinstance(x, ast.Name) and x.id == h.name and isinstance(x.ctx, ast.Load) and x.lineno > end]:
+                    # a later handler / assignment that rebinds the name before the use?
+                    rebound = any(isinstance(s, ast.Assign) and any(isinstance(t, ast.Name) and t.id == h.name for t in s.targets) and end < s.lineno <= u.lineno for s in walk_local(fn))
+                    inside_other = False
+                    a = getattr(u, '_parent', None)
+                    while a is not None and a is not fn:
+                        if isinstance(a, ast.ExceptHandler) and a.name == h.name:
+                            inside_other = True
+                        a = getattr(a, '_parent', None)
+                    if not rebound and not inside_other:
+                        out.append((fn, h, u))
+                        break
+        return out, n
+    tot = 0
+    for mn in modules:
+        m = p.modules.get(mn)
+        if m is None:
+            R.bad(rule, mn, 'anchor missing')
+            continue
+        bad, n = scan(m.tree)
+        tot += n
+        for fn, h, u in bad:
+            R.bad(rule, f'{p.qual_of(fn)} | except ... as {h.name}', f'`{h.name}` is bound by an except clause (line {h.lineno}) and read after it (line {u.lineno}): Python deletes the name when the handler ends, so the read raises UnboundLocalError whenever the exception was caught', f'{m.rel}:{u.lineno}')
+    ct = ast.parse('def a(x):\n    error = None\n    try:\n        v = x()\n    except ValueError as error:\n        pass\n    if error is not None:\n        return 1\n    return v\ndef b(x):\n    try:\n        v = x()\n    except ValueError as error:\n        return str(error)\n    return v\n')
+    for x in ast.walk(ct):
+        for ch in ast.iter_child_nodes(x):
+            ch._parent = x
+    cb, cn = scan(ct)
+    R.check([f.name for f, *_ in cb] == ['a'] and tot >= floor, rule, f'{", ".join(modules)} | except ... as name', f'{tot} named handlers, no name read after its handler (positive control matched)', 'positive control not matched')
+
+
+PREDICATES = {'done', 'cancelled', 'is_set', 'locked', 'empty', 'full', 'is_alive', 'is_closing', 'exception', 'result'}
+
+
+def uncalled_predicate(ctx, rule, modules, floor=0):
+    """`fut.done` without parentheses is a bound method, always true: `not fut.done` is always false."""
+    R, p = ctx.r, ctx.p
+
+    def scan(tree):
+        out = []
+        for a in [x for x in ast.walk(tree) if isinstance(x, ast.Attribute) and x.attr in PREDICATES and isinstance(x.ctx, ast.Load)]:
+            par = getattr(a, '_parent', None)
+            if isinstance(par, ast.Call) and par.func is a:
+                continue
+            boolean = isinstance(par, (ast.BoolOp, ast.If, ast.While, ast.IfExp, ast.Assert)) or (isinstance(par, ast.UnaryOp) and isinstance(par.op, ast.Not))
+            if isinstance(par, (ast.If, ast.While, ast.IfExp, ast.Assert)) and par.test is not a:
+                boolean = False
+            if boolean:
+                out.append(a)
+        return out
+    n = 0
+    for mn in modules:
+        m = p.modules.get(mn)
+        if m is None:
+            R.bad(rule, mn, 'anchor missing')
+            continue
+        n += 1
+        for a in scan(m.tree):
+            R.bad(rule, f'{p.qual_of(a)} | {norm(a)}', f'`{norm(a)}` is used as a truth value without being called: a bound method is always true, so the test has a fixed outcome', f'{m.rel}:{a.lineno}')
+    ct = ast.parse('def f(w):\n    if w is not None and not w.done:\n        return 1\n    if not w.done():\n        return 2\n')
+    for x in ast.walk(ct):
+        for ch in ast.iter_child_nodes(x):
+            ch._parent = x
+    R.check(len(scan(ct)) == 1 and n >= floor, rule, f'{", ".join(modules)} | predicate methods', 'every done / cancelled / is_set / locked / empty used as a truth value is called (positive control matched)', 'positive control not matched')
+
+
+def missing_await(ctx, rule, modules, floor=0):
+    """Inside an `async def`, the call of a coroutine method whose result is returned or dropped without `await` never
+    runs: the caller gets a coroutine object (awaiting the outer function just hands it over).  The callee is resolved
+    through the declared type of `self.<attr>` (class annotation, annotated __init__ parameter) or `self`."""
+    R, p = ctx.r, ctx.p
+    table = _class_table(p, [mn for mn in p.modules if mn.startswith('bumble.')])
+
+    def class_of(node):
+        a = getattr(node, '_parent', None)
+        while a is not None and not isinstance(a, ast.ClassDef):
+            a = getattr(a, '_parent', None)
+        return a
+
+    def attr_type(cls, attr):
+        for st in cls.body:
+            if isinstance(st, ast.AnnAssign) and isinstance(st.target, ast.Name) and st.target.id == attr:
+                return text(st.annotation)
+        init = next((f for f in cls.body if isinstance(f, FUNC) and f.name == '__init__'), None)
+        if init is not None:
+            ann = {a.arg: text(a.annotation) for a in init.args.args + init.args.kwonlyargs if a.annotation is not None}
+            for st in ast.walk(init):
+                if isinstance(st, ast.AnnAssign) and dotted(st.target) == f'self.{attr}':
+                    return text(st.annotation)
+                if isinstance(st, ast.Assign) and any(dotted(t) == f'self.{attr}' for t in st.targets) and isinstance(st.value, ast.Name) and st.value.id in ann:
+                    return ann[st.value.id]
+        return None
+
+    local = {}
+
+    def method(cls_name, name, seen=()):
+        cn = (cls_name or '').replace(' | None', '').split('[')[0].split('.')[-1].strip("'\"")
+        if (cn not in table and cn not in local) or cn in seen:
+            return None
+        c = local[cn] if cn in local else table[cn][1]
+        for f in c.body:
+            if isinstance(f, FUNC) and f.name == name:
+                return f
+        for b_ in c.bases:
+            r = method(dotted(b_), name, seen + (cn,))
+            if r is not None:
+                return r
+        return None
+
+    def scan(tree, table_lookup=True):
+        out, n = [], 0
+        local.clear()
+        local.update({c_.name: c_ for c_ in ast.walk(tree) if isinstance(c_, ast.ClassDef)})   # same-module classes first
+        for fn in [x for x in ast.walk(tree) if isinstance(x, ast.AsyncFunctionDef)]:
+            cls = class_of(fn)
+            if cls is None:
+                continue
+            for c in [x for x in walk_local(fn) if isinstance(x, ast.Call) and isinstance(x.func, ast.Attribute)]:
+                recv = c.func.value
+                target = None
+                if isinstance(recv, ast.Name) and recv.id == 'self':
+                    target = next((f for f in cls.body if isinstance(f, FUNC) and f.name == c.func.attr), None) or method(cls.name, c.func.attr)
+                elif isinstance(recv, ast.Attribute) and isinstance(recv.value, ast.Name) and recv.value.id == 'self':
+                    target = method(attr_type(cls, recv.attr), c.func.attr)
+                if not isinstance(target, ast.AsyncFunctionDef):
+                    continue
+                n += 1
+                par = getattr(c, '_parent', None)
+                if isinstance(par, ast.Return) or (isinstance(par, ast.Expr) and par.value is c):
+                    out.append((fn, c))
+        return out, n
+    tot = 0
+    for mn in modules:
+        m = p.modules.get(mn)
+        if m is None:
+            R.bad(rule, mn, 'anchor missing')
+            continue
+        bad, n = scan(m.tree)
+        tot += n
+        for fn, c in bad:
+            R.bad(rule, f'{p.qual_of(fn)} | {norm(c)[:60]}', f'`{norm(c)[:60]}` calls a coroutine method and its result is returned / dropped without `await`: the coroutine never runs, the command it would send is never sent', f'{m.rel}:{c.lineno}')
+    ct = ast.parse('class Zq:\n    async def suspend(self, s):\n        pass\nclass Pq:\n    protocol: Zq\n    async def stop(self):\n        return self.protocol.suspend([1])\n    async def start(self):\n        return await self.protocol.suspend([1])\n')
+    for x in ast.walk(ct):
+        for ch in ast.iter_child_nodes(x):
+            ch._parent = x
+    for c_ in [x for x in ast.walk(ct) if isinstance(x, ast.ClassDef)]:
+        table.setdefault(c_.name, (None, c_))
+    cb, cn = scan(ct)
+    R.check([f.name for f, _ in cb] == ['stop'] and tot >= floor, rule, f'{", ".join(modules)} | coroutine calls in async functions', f'{tot} calls resolved to coroutine methods, none returned or dropped un-awaited (positive control matched)', f'positive control not matched: {[f.name for f, _ in cb]}')
+
+
+def integer_arithmetic(ctx, rule, modules, allowed=()):
+    """Sizes, offsets and budgets in these modules are integers: true division `/` yields a float, so a budget like
+    (mtu - 1) / 4 lets a fractional extra entry through."""
+    R, p = ctx.r, ctx.p
+    n = 0
+    for mn in modules:
+        m = p.modules.get(mn)
+        if m is None:
+            R.bad(rule, mn, 'anchor missing')
+            continue
+        n += 1
+        for b in [x for x in ast.walk(m.tree) if isinstance(x, ast.BinOp) and isinstance(x.op, ast.Div)]:
+            q = p.qual_of(b)
+            if q in allowed or isinstance(b.left, ast.JoinedStr):
+                continue
+            # path arithmetic on Path objects
+            if any(isinstance(x, ast.Constant) and isinstance(x.value, str) for x in (b.left, b.right)):
+                continue
+            R.bad(rule, f'{q} | {norm(b)[:60]}', f'`{norm(b)[:60]}` uses true division in a module whose quantities are byte counts: the result is a float, comparisons against it admit one entry too many', f'{m.rel}:{b.lineno}')
+        for b in [x for x in ast.walk(m.tree) if isinstance(x, ast.AugAssign) and isinstance(x.op, ast.Div)]:
+            R.bad(rule, f'{p.qual_of(b)} | {norm(b)[:60]}', 'true division in place', f'{m.rel}:{b.lineno}')
+    R.check(n >= 1, rule, f'{", ".join(modules)} | arithmetic', 'no true division', 'no module analysed')
